@@ -186,6 +186,11 @@ def targeted_recipes():
                 "sections": line_with([1] + end, line_base=1), "mut": []})
     out.append({"sys": "robust", "base": "raw", "seed": 29, "id": "tg:line-range-small", "only": ["lines", "convert_line"],
                 "sections": line_with([1] + end, line_base=0xfb, line_range=3), "mut": []})
+    # grid of line_base x line_range header values (incl. line_base + line_range = 0 and line_range >= 128)
+    for lb in (0x80, 0xfb, 0xfd, 0xff, 0, 1, 0x7f):
+        for lr in (0, 1, 2, 3, 5, 127, 128, 129, 255):
+            out.append({"sys": "robust", "base": "raw", "seed": 29, "id": "tg:line-enc-%d-%d" % (lb, lr),
+                        "only": ["lines", "convert_line"], "sections": line_with([1, 0x20, 0xff] + end, line_base=lb, line_range=lr), "mut": []})
     out.append({"sys": "robust", "base": "raw", "seed": 30, "id": "tg:line-empty-file", "only": ["lines", "convert_line"],
                 "sections": line_with([0, 5, 3, 0, 0, 0, 0, 1] + end), "mut": []})
     out.append({"sys": "robust", "base": "raw", "seed": 31, "id": "tg:line-misaligned", "only": ["lines", "convert_line"],
